@@ -13,7 +13,7 @@ from ..flow import Enumerator, RETURN, fmt
 from ..symx import Expander, TupleV
 from ..anf import R, Unsupported
 from .. import anf, fsm
-from .common import path_statements_all, dtype_hazard_obligations, struct_ob, formula_ob, guard, last_return, U
+from .common import path_statements, path_statements_all, dtype_hazard_obligations, struct_ob, formula_ob, guard, last_return, U
 from . import mcmc
 from ..report import AnalysisError
 from ..term import Resolver, pmatch, find_all, abstract, anf_of
@@ -240,14 +240,32 @@ def _probe_inside(fn, name, base):
         return False, f"probe `{name}` is modified by {[U(m) for m in mods]}"
     h = mods[0].value.id
     idx = U(mods[0].target.slice)
-    guards = [n for n in ast.walk(fn) if isinstance(n, ast.If) and U(n.test) == "self.bounds is not None"
-              and n.lineno < mods[0].lineno]
-    if len(guards) != 1:
-        return False, "no `if self.bounds is not None:` block constrains the probe step"
-    g = guards[0]
-    if len(g.body) != 2 or not isinstance(g.body[0], ast.Assign) or not isinstance(g.body[1], ast.If):
-        return False, f"bounded arm is `{[U(x) for x in g.body]}`"
-    a, flip = g.body
+    # the statements executed before the probe is moved, in the bounded configuration (self.bounds is not None), whatever the
+    # spelling of the configuration test (guarded overwrite, if / else, early default)
+    def block_of(body):
+        for st in body:
+            if st is mods[0]:
+                return body
+            for nm in ("body", "orelse", "finalbody"):
+                b = getattr(st, nm, None)
+                if isinstance(b, list) and b and isinstance(b[0], ast.stmt):
+                    r = block_of(b)
+                    if r is not None:
+                        return r
+        return None
+    blk = block_of(fn.body)
+    if blk is None:
+        return False, "probe update not found in a statement list"
+    seq = path_statements(blk, {"self.bounds": False})
+    if mods[0] not in seq:
+        return False, "the probe update is not reached in the bounded configuration"
+    seq = seq[:seq.index(mods[0])]
+    hdefs = [k for k, st in enumerate(seq) if any(isinstance(x, ast.Name) and x.id == h and isinstance(x.ctx, ast.Store) for x in ast.walk(st))]
+    if len(hdefs) < 2:
+        return False, "no bounded-configuration definition of the probe step followed by an inward flip"
+    a, flip = seq[hdefs[-2]], seq[hdefs[-1]]
+    if not isinstance(a, ast.Assign) or not isinstance(flip, ast.If):
+        return False, f"bounded configuration: step `{U(a)[:80]}` then `{U(flip)[:80]}`"
     okc = False
     if U(a.targets[0]) == h and isinstance(a.value, ast.BinOp) and isinstance(a.value.op, ast.Mult):
         parts = [a.value.left, a.value.right]
@@ -256,8 +274,7 @@ def _probe_inside(fn, name, base):
         okc = len(lit) == 1 and 0 < lit[0].value <= 0.5 and len(oth) == 1 and U(oth[0]) == f"self.bounds.width[{idx}]"
     okf = (U(flip.test) == f"{base}[{idx}] + {h} > self.bounds.upper[{idx}]"
            and [U(x) for x in flip.body] == [f"{h} = -{h}"] and not flip.orelse)
-    later = [n for n in ast.walk(fn) if isinstance(n, ast.Assign) and U(n.targets[0]) == h
-             and g.end_lineno < n.lineno < mods[0].lineno]
+    later = []
     if okc and okf and not later:
         return True, "inward step of at most half the box width"
     return False, (f"step `{U(a)}` / flip `{U(flip.test)}` is not the recognised containment argument "
